@@ -34,6 +34,12 @@ impl RegionT {
 }
 impl MetaT {
     pub uninterp spec fn id_v(&self) -> Seq<u8>;
+    pub uninterp spec fn len_v(&self) -> usize;
+    pub uninterp spec fn start_v(&self) -> usize;
+    pub uninterp spec fn reserved_v(&self) -> usize;
+    #[verifier::external_body] pub fn len(&self) -> (r: usize) ensures r == self.len_v() { unimplemented!() }
+    #[verifier::external_body] pub fn start(&self) -> (r: usize) ensures r == self.start_v() { unimplemented!() }
+    #[verifier::external_body] pub fn reserved(&self) -> (r: usize) ensures r == self.reserved_v() { unimplemented!() }
     #[verifier::external_body] pub fn id(&self) -> (r: &StrH) ensures r.bytes() == self.id_v() { unimplemented!() }
 }
 // index_to_region.iter().enumerate().find(|(_, opt)| opt.is_none()).map(|(index, _)| index).unwrap_or_else(|| index_to_region.len())
@@ -53,7 +59,11 @@ pub fn take_slot(v: &mut Vec<Option<RegionT>>, i: usize) -> (r: Option<RegionT>)
 pub fn get_slot(v: &Vec<Option<RegionT>>, i: usize) -> (r: Option<&RegionT>)
     ensures r == (if i < v@.len() && v@[i as int] is Some { Some(&v@[i as int]->Some_0) } else { None::<&RegionT> })
 { unimplemented!() }
-#[verifier::external_body] pub fn zero_page() -> (r: &'static [u8]) ensures r@.len() == 4096 { unimplemented!() }
+pub open spec fn zeros4096() -> Seq<u8> { Seq::new(4096, |i: int| 0u8) }
+#[verifier::external_body] pub fn zero_page() -> (r: &'static [u8]) ensures r@.len() == 4096, r@ == zeros4096() { unimplemented!() }
+// the metadata mapping's contents (one 4096-byte slot per region index) as a ghost byte string
+pub tracked struct SW { pub ghost meta: Seq<u8> }
+pub open spec fn slot_put(m: Seq<u8>, index: int, data: Seq<u8>) -> Seq<u8> { m.take(index * 4096) + data + m.skip(index * 4096 + 4096) }
 
 // ---- Region::rename: the table and this region's metadata id as a ghost world ----
 pub tracked struct RNW {
@@ -141,4 +151,8 @@ impl MmapT {
     pub uninterp spec fn mlen(&self) -> nat;
 }
 // write_to_mmap (U22): copies inside the mapping; out of bounds is a panic
-#[verifier::external_body] pub fn write_to_mmap(mmap: &MmapT, offset: usize, data: &[u8]) requires offset + data@.len() <= mmap.mlen() { unimplemented!() }
+#[verifier::external_body]
+pub fn write_to_mmap(mmap: &MmapT, offset: usize, data: &[u8], Tracked(w): Tracked<&mut SW>)
+    requires offset + data@.len() <= mmap.mlen(), old(w).meta.len() == mmap.mlen()
+    ensures final(w).meta == old(w).meta.take(offset as int) + data@ + old(w).meta.skip(offset + data@.len())
+{ unimplemented!() }
